@@ -95,12 +95,63 @@ def select(idx, xs):
     return e
 
 
-ACTIONS = ('index', 'first', 'last', 'next', 'prev', 'time', 'step')
+ACTIONS = ('index', 'first', 'last', 'next', 'prev', 'time', 'step', 'badhist')
+BADHIST_VARIANTS = ('unknown-block', 'unknown-connection', 'two-invalid', 'unknown-table-letter', 'table-not-in-listing')
 
 
-def task_action(action, n, cls='t2listing'):
+def _name(c, base):
+    from vx.strs import SStr, SChar
+    cells = []
+    for k in range(5):
+        e = z3.Int('%s.%d' % (base, k)); c.add(z3.And(e >= 32, e <= 126)); cells.append(SChar(e))
+    return SStr(cells)
+
+
+def _neq(a, b):
+    r = (a == b)
+    return z3.Not(r.e) if isinstance(r, SBool) else z3.BoolVal(not r)
+
+
+def attach_tables(c, T, lst, tag=''):
+    """What history() looks at before it touches the file: `_table` (real
+    listingtable objects: element table with two symbolic row names,
+    connection table with one symbolic pair), `short_types`, `short_indices`."""
+    if getattr(lst, '_c07_rows', None) is not None: return lst._c07_rows
+    r0, r1, ca, cb = _name(c, tag + 'r0'), _name(c, tag + 'r1'), _name(c, tag + 'ca'), _name(c, tag + 'cb')
+    c.add(_neq(r0, r1))
+    lst._table = {'element': T.listingtable(['P', 'T'], [r0, r1]),
+                  'connection': T.listingtable(['FLOW'], [(ca, cb)], num_keys=2, allow_reverse_keys=True)}
+    lst.short_types = ['ESHORT']
+    lst.short_indices = {'ESHORT': {0: 0}}
+    lst._c07_rows = (r0, r1, ca, cb)
+    return lst._c07_rows
+
+
+def bad_selection(c, T, lst, variant, tag=''):
+    """a history selection in which every specification is invalid; the
+    names asked for are symbolic, constrained only to be absent from the tables"""
+    r0, r1, ca, cb = attach_tables(c, T, lst)
+    if variant in ('unknown-block', 'two-invalid'):
+        key = _name(c, tag + 'key'); c.add(_neq(key, r0)); c.add(_neq(key, r1))
+    if variant in ('unknown-connection', 'two-invalid'):
+        ka, kb = _name(c, tag + 'ka'), _name(c, tag + 'kb')
+        both = lambda x, y: z3.And(z3.Not(_neq(x, ca)), z3.Not(_neq(y, cb)))
+        c.add(z3.Not(both(ka, kb))); c.add(z3.Not(both(kb, ka)))
+    if variant == 'unknown-block': return ('e', key, 'P'), [key]
+    if variant == 'unknown-connection': return ('c', (ka, kb), 'FLOW'), [ka, kb]
+    if variant == 'two-invalid': return [('e', key, 'T'), ('c', (ka, kb), 'FLOW')], [key, ka, kb]
+    if variant == 'unknown-table-letter': return ('x', r0, 'P'), [r0]
+    if variant == 'table-not-in-listing': return ('g', (r0, r1), 'P'), [r0, r1]
+    raise ValueError(variant)
+
+
+def _text(m, s):
+    return ''.join(x if isinstance(x, str) else chr(sym.model_value(m, x.code)) for x in s.cells)
+
+
+def task_action(action, n, cls='t2listing', variant=None):
     T = _load().t2listing
-    name = '%s/%s/n%d' % (cls, action, n)
+    name = '%s/%s%s/n%d' % (cls, action, '-' + variant if variant else '', n)
     failures, samples, distinct = [], [], set()
     reached = [0]
 
@@ -110,8 +161,14 @@ def task_action(action, n, cls='t2listing'):
         arg = None
         moved = None
         raised = None
+        names = []
+        result = 'n/a'
         try:
-            if action == 'index':
+            if action == 'badhist':
+                sel, names = bad_selection(c, T, lst, variant)
+                rows = attach_tables(c, T, lst)
+                result = lst.history(sel)
+            elif action == 'index':
                 arg = c.int('i', -n, n - 1)
                 lst.index = arg
             elif action == 'first': lst.first()
@@ -130,6 +187,8 @@ def task_action(action, n, cls='t2listing'):
             d = dict(cls=cls, action=action, n=n, k0=sym.model_value(m, k0.e),
                      times=[sym.model_value(m, x) for x in te], steps=[sym.model_value(m, x) for x in se])
             if arg is not None: d['arg'] = sym.model_value(m, arg.e)
+            if action == 'badhist':
+                d['variant'] = variant; d['rows'] = [_text(m, x) for x in attach_tables(c, T, lst)]; d['names'] = [_text(m, x) for x in names]
             return d
         def prove(f, label, what):
             if isinstance(f, SBool): f = f.e
@@ -139,7 +198,7 @@ def task_action(action, n, cls='t2listing'):
             if not (z3.is_true(sf) or z3.is_false(sf)): distinct.add((label, sf.hash()))
             r = c.prove(f, label)
             if r == 'sat':
-                failures.append(dict(key='%s/%s/%s' % (cls, action, label), what='%s n=%d: %s' % (action, n, what),
+                failures.append(dict(key='%s/%s%s/%s' % (cls, action, '-' + variant if variant else '', label), what='%s n=%d: %s' % (action, n, what),
                                      replay=rp(c.failures[-1]['model'])))
             return r
         if raised is not None:
@@ -153,7 +212,10 @@ def task_action(action, n, cls='t2listing'):
         elif action == 'last': want = z3.IntVal(n - 1)
         elif action == 'next': want = z3.If(k0.e < n - 1, k0.e + 1, k0.e)
         elif action == 'prev': want = z3.If(k0.e > 0, k0.e - 1, k0.e)
+        elif action == 'badhist': want = k0.e
         else: want = None
+        if action == 'badhist':
+            prove(result is None, 'returns-none', 'history() with only invalid specifications returned %r' % (result,))
         prove(z3.And(ie >= 0, ie < n), 'index-in-range', 'reported index outside [0, n)')
         if want is not None:
             prove(ie == want, 'reported-index', 'reported index is not the one the action prescribes')
@@ -176,7 +238,12 @@ def task_action(action, n, cls='t2listing'):
         # reading: navigation that changes nothing may skip the read (next at the end, prev at the start)
         reads = [x for x in log if x[0] == 'read']
         seeks = [x for x in log if x[0] == 'seek']
-        if action in ('next', 'prev') and not reads:
+        if action == 'badhist':
+            prove(not reads and not seeks, 'no-seek-no-read', 'a history request that extracts nothing moved the file offset or re-read the tables: %r' % (log[:4],))
+            prove(isinstance(lst.time, SReal) and isinstance(lst.step, SInt) and
+                  z3.And(lst.time.e == select(k0.e, te), lst.step.e == select(k0.e, se)), 'reported-time-step',
+                  'reported time/step are no longer those of the position before the request')
+        elif action in ('next', 'prev') and not reads:
             prove(ie == k0.e, 'no-read-only-when-not-moved', 'position changed without reading the tables')
             prove(not seeks, 'no-seek-when-not-moved', 'file offset moved without reading the tables')
             if cls == 't2listing':
@@ -215,6 +282,7 @@ def _do(lst, action, arg):
     elif action == 'prev': return lst.prev()
     elif action == 'time': lst.time = arg
     elif action == 'step': lst.step = arg
+    elif action == 'badhist': return lst.history(arg)
 
 
 def task_sequence(actions, n):
@@ -229,13 +297,21 @@ def task_sequence(actions, n):
     def h(c):
         lst, times, steps, fullpos, log, k0 = make_listing(c, T, n)
         args = []
+        hnames = {}
         for q, a in enumerate(actions):
+            if a == 'badhist':
+                sel, nm = bad_selection(c, T, lst, 'unknown-block', tag='q%d' % q)
+                args.append(sel); hnames[q] = nm
+                continue
             args.append(c.int('i%d' % q, -n, n - 1) if a == 'index' else c.real('t%d_' % q) if a == 'time' else
                         c.int('s%d_' % q) if a == 'step' else None)
         def rp(m):
-            return dict(cls='t2listing', sequence=list(actions), n=n, k0=sym.model_value(m, k0.e),
-                        times=[sym.model_value(m, x.e) for x in times], steps=[sym.model_value(m, x.e) for x in steps],
-                        args=[None if a is None else sym.model_value(m, a.e) for a in args])
+            d = dict(cls='t2listing', sequence=list(actions), n=n, k0=sym.model_value(m, k0.e),
+                     times=[sym.model_value(m, x.e) for x in times], steps=[sym.model_value(m, x.e) for x in steps],
+                     args=[None if a is None else dict(names=[_text(m, x) for x in hnames[q]]) if q in hnames else sym.model_value(m, a.e)
+                           for q, a in enumerate(args)])
+            if hnames: d['rows'] = [_text(m, x) for x in attach_tables(c, T, lst)]
+            return d
         def prove(f, label, what):
             if isinstance(f, SBool): f = f.e
             if isinstance(f, bool): f = z3.BoolVal(f)
@@ -279,10 +355,15 @@ def run(tier, seed, rep):
     tasks = []
     for n in reversed(ns):
         for a in ACTIONS:
+            if a == 'badhist':
+                for v in BADHIST_VARIANTS:
+                    if tier == 'quick' and n not in (1, max(ns)) and v != 'unknown-block': continue
+                    tasks.append((task_action, dict(action=a, n=n, variant=v)))
+                continue
             tasks.append((task_action, dict(action=a, n=n)))
     for n in reversed(ns if tier == 'thorough' else (1, 2, 3)):
         for a in ACTIONS:
-            if a == 'step': continue
+            if a in ('step', 'badhist'): continue
             tasks.append((task_action, dict(action=a, n=n, cls='toughreact_tecplot')))
     import itertools
     nseq = 2 if tier == 'quick' else 3
@@ -298,8 +379,12 @@ def run(tier, seed, rep):
                    'every sequence of 2 actions on n = %d result sets%s compared with a second object on which only index = k was executed' % (
                        nseq, ' and every sequence of 3 actions on n = 2' if tier == 'thorough' else ''),
                    'the same kernel of toughreact_tecplot (index/first/last/next/prev/time) for n = %s' % (list(ns if tier == 'thorough' else (1, 2, 3)),)]
+    rep.bounds += ["action 'badhist' = the real history() with a selection in which EVERY specification is invalid (%s): block / connection names asked for are "
+                   'symbolic 5-character names constrained only to be absent from the tables (element table: two symbolic row names, connection table: one symbolic pair); '
+                   'obligations: returns None, index/time/step unchanged, no seek, no read; also as a step of every 2-/3-action sequence' % (list(BADHIST_VARIANTS),)]
     rep.outside += ['table contents: read_tables itself (whole-file parsing) is not executed; see assumption',
-                    'history(): it seeks through the whole file; only its final `self._index = old_index` belongs to the kernel and is not exercised here',
+                    'history() with at least one VALID specification: after the prologue it scans the file (skip_to_table, readline, read_table_line), which needs a '
+                    'real listing; only the prologue up to the early exit runs on the stub object',
                     'index arguments outside [-n, n) (IndexError from the list before any state changes)',
                     'NaN times; float rounding of |times - t| (exact reals here)',
                     'listings with short (AUTOUGH2 SHORT) output where _pos differs from _fullpos']
@@ -309,7 +394,8 @@ def run(tier, seed, rep):
     rep.functions.update(['t2listing.py:t2listing.get_index', 't2listing.py:t2listing.set_index', 't2listing.py:t2listing.set_time',
                           't2listing.py:t2listing.set_step', 't2listing.py:t2listing.first', 't2listing.py:t2listing.last',
                           't2listing.py:t2listing.next', 't2listing.py:t2listing.prev', 't2listing.py:t2listing.get_time',
-                          't2listing.py:t2listing.get_step', 't2listing.py:t2listing.get_num_fulltimes'])
+                          't2listing.py:t2listing.get_step', 't2listing.py:t2listing.get_num_fulltimes', 't2listing.py:t2listing.history',
+                          't2listing.py:ordered_selection', 't2listing.py:tablename_from_specification', 't2listing.py:listingtable.__init__'])
     rep.process_failures()
     return rep.finish(rule='one obligation per (action, n, path, label): path condition AND NOT(obligation) must be unsat; '
                       'distinct = non-constant formulas deduplicated by (label, z3 AST hash) per task')
